@@ -191,7 +191,7 @@ pub fn spec() -> PropSpec<Case> {
         .boxed()
     },
     check,
-    cases: |tier| tier.pick(20_000, 400_000),
+    cases: |tier| tier.pick(40_000, 800_000),
     rule: "registries of 1-4 packages (names that are prefixes of one another: @s/a, @s/ab, @s/b, @t/a) x 1-3 versions (incl. a prerelease), exports as a string or as a map with 1-3 entries and a non-string value, files importing one another by relative path, by jsr: requirement (root and sub-path exports, missing exports, unsatisfiable requirements), by npm: and by https registry URL, statically / dynamically / as types; a root program importing 1-5 jsr:/npm:/registry URLs; all three graph kinds; non-trivial = a package module imports another package, or an export map with >= 2 entries is used, or an unknown export is requested; distinct = distinct case JSON",
     assumptions: &[
       "the dependency sets are computed from the graph's recorded dependencies of the modules of each package (C01 validates those against the sources)",
